@@ -183,11 +183,12 @@ CHECKS = {
         'harnesses': [
             {'fn': T + 'H_C05_1_ChargeLaw', 'over': {'max-decisions': 1500, 'max-paths': 60000}, 'must_reach': ['committed', 'discarded', 'rejected', 'refund-capped-at-one-fifth']},
             {'fn': T + 'H_C05_1b_ChargeLawAll', 'over': {'max-decisions': 1500, 'max-paths': 400000}, 'thorough_only': True},
+            {'fn': T + 'H_C05_1c_ChargeLawValueMoves', 'over': {'max-decisions': 1500, 'max-paths': 400000}, 'thorough_only': True},
         ],
         'level_text': 'Bounded symbolic execution of one Ethereum transaction through the real EVM-lane fee, nonce and execution code (as for C04): z3 decides on every path that the sender pays exactly gasUsed x effective price plus the value actually transferred (gasLimit x price when the execution is discarded, nothing when rejected at admission), that gas used equals an independent account of intrinsic gas + gas consumed - min(refund counter, consumed/5), lies within [.., gas limit], and that the SDK gas meter and the receipt report the same gas used.',
         'level_note': 'Known finding C05-F12 (open): with a storage refund the receipt gas used can be below the intrinsic gas (go-ethereum accounting, required by C02). Cumulative gas over several transactions is checked under C13.',
-        'bounds': TX_BOUNDS,
-        'outside': ['the interpreter\'s own gas schedule (the script consumes a symbolic amount of gas)', 'multi-transaction blocks (C13)'],
+        'bounds': TX_BOUNDS + ['quick: call of the scripted contract / plain transfer, script action none / storage write with refund / log, symbolic sender nonce; thorough adds creation (sender nonce 5) with those actions, and calls whose contract transfers value out or self-destructs'],
+        'outside': ['the interpreter\'s own gas schedule (the script consumes a symbolic amount of gas)', 'multi-transaction blocks (C13)', 'creation with a symbolic sender nonce (the created address becomes a symbolic hash that may alias every account: did not finish in 25 minutes)'],
         'assumptions': TX_ASSUMPTIONS,
     },
     'C06': {
